@@ -314,7 +314,10 @@ def outside(path, cwd, allowed_real, harness_ok):
 
 
 def case(arg):
-    seed, placement, mode = arg  # mode: "plain" | ("fail", k) | "strace"
+    seed, placement, mode = arg  # mode: "plain" | "plain_lonely" | ("fail", k) | "strace"
+    lonely = mode == "plain_lonely"  # a project whose graphs are all trivial, with a graph directory that the run has to create
+    if lonely:
+        mode = "plain"
     rng = random.Random(seed)
     root = core.mktemp("vf_c19_")
     logdir = core.mktemp("vf_c19log_")
@@ -340,6 +343,8 @@ def case(arg):
         opts_on["lonely_sources"] = rng.random() < (0.6 if opts_on["graph_dir"] == "under_empty_parent" else 0.15)
         if opts_on["graph_dir"] and rng.random() < 0.8:
             opts_on["graph"] = True
+        if lonely:
+            opts_on.update({"graph": True, "lonely_sources": True, "bad_preprocessor": False, "graph_dir": ["under_empty_parent", "sibling", "absolute"][seed % 3]})
         cwd = rng.choice([os.path.join(root, "proj"), os.path.join(root, "work")])
         opts_on["cwd"] = cwd
         opts_on["via_cli"] = rng.random() < 0.3 and not (opts_on["graph_dir"] == "in_output")
@@ -469,6 +474,8 @@ def main():
         for pl in PLACEMENTS + REFUSALS + BLOCKED + BLOCKED:
             i += 1
             args.append((base + i if pl not in REFUSALS else base + 5000 + 2 * (REFUSALS.index(pl) + 10 * (rep // 2)) + rep % 2, pl, "plain"))
+    for k_ in range(6 if thorough else 3):
+        args.append((base + 6000 + k_, ["sibling", "nested", "absolute"][k_ % 3], "plain_lonely"))
     # failpoints: find the number of events on a reference run, then inject at k
     step = 1 if thorough else 6
     for pl in (PLACEMENTS if thorough else ["sibling", "symlink", "stale_output"]):
